@@ -103,6 +103,15 @@ func (m *UnboundedMailbox) Dequeue() *ReceiveContext {
 	// above may still hold a pointer to the old head and atomically
 	// load its next field via IsEmpty/Len. The reset here must match
 	// that with an atomic store.
+	if head.response != nil {
+		// A context built for an Ask is still referenced by its caller, which
+		// marks the reply slot closed when it gives up. Handing the context
+		// to another send would let that late mark close the reply slot of
+		// an unrelated Ask; leave it to the garbage collector instead.
+		head.reset()
+		atomic.StorePointer(&head.next, nil)
+		return next
+	}
 	head.reset()
 	atomic.StorePointer(&head.next, nil)
 	select {
